@@ -21,12 +21,14 @@ class Story:
         self.sim = chain.Sim(reorg_limit=shape.get('reorg_limit', 10), activation=0, concrete=True)
         self.sim.merkle_headers = True
         self.fs = fullsim.FullSim(self.sim, deviations=shape.get('deviations', 0),
-                                  max_steps=shape.get('max_steps', 900))
+                                  max_steps=shape.get('max_steps', 900), with_sessions=shape.get('sessions', True),
+                                  split_jobs=shape.get('split_jobs', False))
         self.fs.sched.window = shape.get('window')
         self.main = []               # the daemon's current chain (RBlocks)
         self.mp = {}                 # name -> prepared RTx
         self.requests = []           # outcomes of client requests
         self.nblock = 0
+        self.old_chains = []         # chains the daemon was on earlier
 
     # -- events ------------------------------------------------------------------------------------
     def apply(self, ev):
@@ -54,6 +56,7 @@ class Story:
             for spec in specs:
                 self.nblock += 1
                 sim.gen_block(spec, f'k{self.nblock}', chain=new)
+            self.old_chains.append(list(self.main))
             self.main = new
             fs.daemon.set_chain(new)
             for t in orphaned:
@@ -132,14 +135,23 @@ class Story:
             sim.gen_block(spec, f'k{self.nblock}', chain=self.main)
         fs.daemon.set_chain(self.main)
         dev = fs.sched.deviations
-        fs.sched.deviations = 0            # start-up is not part of the explored window
+        shutdown = shape.get('shutdown', False)
+        if shutdown:
+            fs.sched.permanent = [('shutdown', fs.shutdown, True)]
+        if not shape.get('explore_startup', False):
+            fs.sched.deviations = 0        # start-up is not part of the explored window
         fs.start()
         fs.quiesce()
-        for _ in range(shape.get('clients', 1)):
-            fs.client()
+        if fs.stopped:
+            return
+        if shape.get('sessions', True):
+            for _ in range(shape.get('clients', 1)):
+                fs.client()
         script = list(shape['script'])
-        fs.sched.deviations = dev
+        fs.sched.deviations = dev if not shape.get('explore_startup', False) else fs.sched.deviations
         for n, ev in enumerate(script):
+            if fs.stopped:
+                return
             if isinstance(ev[0], (tuple, list)):
                 # (('when', label_prefix, nth), event): injected right after that gate opens
                 (_w, prefix, nth), inner = ev
@@ -162,6 +174,8 @@ class Story:
             else:
                 fs.quiesce(shape.get('rounds', 2))
             fs.sched.anytime = []
+        if fs.stopped:
+            return
         script = [e for e in script]
         fs.sched.deviations = 0
         fs.quiesce(3)
